@@ -100,16 +100,22 @@ def bad_writers(lua, zoo):
                     yield b'x=1\n'
                 raise cls(*args)
         return W
+    class ArgsW(lua.LuaEchoWriter):
+        """a writer whose output is what its args say (valid code without args)"""
+        def to_lines(self):
+            yield (self._args or {}).get('text', b'x=1\n')
+    out.append(('args-output-does-not-lex', ArgsW, {'text': b'msg = "hello\n'}))
+    out.append(('args-output-does-not-parse', ArgsW, {'text': b'if x then y=1\n'}))
     for nm, text in (('output-unterminated-string', b'msg = "hello\nprint(msg)\n'), ('output-unterminated-comment', b'x=1 --[[ c\n'),
                      ('output-bad-char', b'x = 1 @@ `\n'), ('output-unparseable', b'a=b=c\n'), ('output-unclosed-block', b'if x then y=1\n'),
                      ('output-stray-end', b'x=1 end\n'),
                      ('output-missing-until', b'repeat x=1\n'), ('output-bad-assign', b'x = = 1\n'), ('output-call-missing-paren', b'f(1\n')):
-        out.append((nm, mk_output(text)))
+        out.append((nm, mk_output(text), None))
     for nm, cls, args in zoo:
         if cls in (GeneratorExit, StopIteration):
             continue      # inside a generator these end the iteration: not failures
-        out.append(('raises-' + nm, mk_raise(cls, args, False)))
-        out.append(('raises-late-' + nm, mk_raise(cls, args, True)))
+        out.append(('raises-' + nm, mk_raise(cls, args, False), None))
+        out.append(('raises-late-' + nm, mk_raise(cls, args, True), None))
     return out
 
 
@@ -230,19 +236,20 @@ def run(ctx, res):
                 FaultyStream.exc = None
             res.count('exception-classes' + ext)
         # Lua writers that fail in every way a writer can: raise (any class), or return code that does not lex / does not parse
-        for nm, wcls in bad_writers(lua, exception_zoo()):
+        for nm, wcls, wargs in bad_writers(lua, exception_zoo()):
             for before in ((valid_existing if ext == '.p8.png' else old), None):
-                fails = not (ext == '.p8.png' and nm.startswith('output-'))    # only the .p8 encoder re-parses what the writer produced
-                if nm.startswith('output-') and fails:
+                is_output = nm.startswith('output-') or nm.startswith('args-output-')
+                fails = not (ext == '.p8.png' and is_output)    # only the .p8 encoder re-parses what the writer produced
+                if is_output and fails:
                     # "does not re-parse" is picotool's own lexer+parser raising on the writer's output (its parser stops
                     # silently at some stray tokens: that leniency is C08/C09's subject, not a failed write)
                     try:
-                        lua.Lua.from_lines(list(wcls(tokens=[], root=None).to_lines()), version=8)
+                        lua.Lua.from_lines(list(wcls(tokens=[], root=None, args=wargs).to_lines()), version=8)
                         fails = False
                     except Exception:
                         fails = True
                     res.count('writer-output-reparse-fails:%s' % fails)
-                st, _ = check_run(res, '%s-writer-%s' % (ext, nm), g, dest, before, None, fails, lua_writer_cls=wcls, lua_writer_args=None)
+                st, _ = check_run(res, '%s-writer-%s' % (ext, nm), g, dest, before, None, fails, lua_writer_cls=wcls, lua_writer_args=wargs)
                 res.nontrivial.add((ext, 'writer', nm, before is not None))
                 res.count('bad-writers' + ext)
         # internal failure sources
